@@ -51,6 +51,37 @@ theorem cnt_map_addField (f : String) (fo : Option String) (ks : List Child) :
       · have : ¬ f ∈ (addField fo c).fields := fun h => (hm.1 h).elim hf hc
         rw [if_neg this, if_neg hf, if_neg hf, if_neg hc]
 
+theorem cntPlain_append (a b : List Child) : cntPlain (a ++ b) = cntPlain a + cntPlain b := by
+  simp [cntPlain, List.filter_append]
+
+theorem cntPlain_single (ty : TypeRef) (fo : Option String) :
+    cntPlain [⟨ty, fo.toList⟩] = if fo = none ∧ ty.named = true then 1 else 0 := by
+  cases fo with
+  | none => cases hn : ty.named <;> simp [cntPlain, isPlain, hn]
+  | some g => simp [cntPlain, isPlain]
+
+theorem isPlain_addField (fo : Option String) (c : Child) :
+    isPlain (addField fo c) = (decide (fo = none) && isPlain c) := by
+  cases fo with
+  | none => simp [isPlain, addField]
+  | some g => simp [isPlain, addField]
+
+theorem cntPlain_map_addField (fo : Option String) (ks : List Child) :
+    cntPlain (ks.map (addField fo)) = if fo = none then cntPlain ks else 0 := by
+  induction ks with
+  | nil => simp [cntPlain]
+  | cons c cs ih =>
+    have h1 : cntPlain (List.map (addField fo) (c :: cs)) = cntPlain [addField fo c] + cntPlain (cs.map (addField fo)) := by
+      rw [List.map_cons, show addField fo c :: cs.map (addField fo) = [addField fo c] ++ cs.map (addField fo) from rfl, cntPlain_append]
+    have h2 : cntPlain (c :: cs) = cntPlain [c] + cntPlain cs := by
+      rw [show c :: cs = [c] ++ cs from rfl, cntPlain_append]
+    have h3 : cntPlain [addField fo c] = if fo = none then cntPlain [c] else 0 := by
+      cases fo with
+      | none => simp [addField]
+      | some g => simp [cntPlain, isPlain, addField]
+    rw [h1, ih, h2, h3]
+    split <;> rfl
+
 /-- what one step contributes, given that the derivations of hidden rules are admitted -/
 theorem step_sound (G : Grammar) (I : Info) (K : Nat → List Child → Prop)
     (hK : ∀ h ks, K h ks → Admits I h ks) (v : Nat) (s : Step) (k : List Child)
@@ -59,15 +90,18 @@ theorem step_sound (G : Grammar) (I : Info) (K : Nat → List Child → Prop)
     (stepChildMax G I s < 2 → k.length ≤ stepChildMax G I s) ∧
     (∀ f, stepFieldMax G I f s < 2 → cnt f k ≤ stepFieldMax G I f s) ∧
     (stepChildMin G I s ≤ k.length) ∧
-    (∀ f, stepFieldMin G I f s ≤ cnt f k) := by
+    (∀ f, stepFieldMin G I f s ≤ cnt f k) ∧
+    (∀ c ∈ k, isPlain c = true → c.ty ∈ I.plainTypes v) ∧
+    (stepPlainMax G I s < 2 → cntPlain k ≤ stepPlainMax G I s) ∧
+    (stepPlainMin G I s ≤ cntPlain k) := by
   unfold StepKids at hs
   unfold StepClosed at hc
-  unfold stepChildMax stepFieldMax stepChildMin stepFieldMin
+  unfold stepChildMax stepFieldMax stepChildMin stepFieldMin stepPlainMax stepPlainMin
   cases hv : visTy G s with
   | some ty =>
     simp only [hv] at hs hc ⊢
     subst hs
-    refine ⟨?_, by simp, ?_, by simp, ?_⟩
+    refine ⟨?_, by simp, ?_, by simp, ?_, ?_, ?_, ?_⟩
     · intro c hcm
       simp only [List.mem_singleton] at hcm
       subst hcm
@@ -78,22 +112,33 @@ theorem step_sound (G : Grammar) (I : Info) (K : Nat → List Child → Prop)
       | some g =>
         simp only [hfo, Option.toList_some, List.mem_singleton] at hf
         subst hf
-        exact hc.2 f hfo
+        exact hc.2.1 f hfo
     · intro f _; rw [cnt_single]; split <;> simp_all
     · intro f; rw [cnt_single]; exact Nat.le_refl _
+    · intro c hcm hpl
+      simp only [List.mem_singleton] at hcm
+      subst hcm
+      simp only [isPlain, Bool.and_eq_true, List.isEmpty_iff] at hpl
+      have hfn : s.field = none := by
+        cases hfo : s.field with
+        | none => rfl
+        | some g => simp [hfo] at hpl
+      exact hc.2.2 hfn hpl.2
+    · intro _; rw [cntPlain_single]; exact Nat.le_refl _
+    · rw [cntPlain_single]; exact Nat.le_refl _
   | none =>
     simp only [hv] at hs hc ⊢
     cases hk : G.kind s.sym with
     | token t =>
       simp only [hk] at hs hc ⊢
       subst hs
-      simp [cnt]
+      simp [cnt, cntPlain]
     | rule h t =>
       simp only [hk] at hs hc ⊢
       obtain ⟨ks, hks, rfl⟩ := hs
-      obtain ⟨a1, a2, a3, a4, a5⟩ := hK h ks hks
-      obtain ⟨c1, c2, c3⟩ := hc
-      refine ⟨?_, ?_, ?_, ?_, ?_⟩
+      obtain ⟨a1, a2, a3, a4, a5, a6, a7, a8⟩ := hK h ks hks
+      obtain ⟨c1, c2, c3, c4⟩ := hc
+      refine ⟨?_, ?_, ?_, ?_, ?_, ?_, ?_, ?_⟩
       · intro c hcm
         simp only [List.mem_map] at hcm
         obtain ⟨c0, hc0, rfl⟩ := hcm
@@ -121,6 +166,21 @@ theorem step_sound (G : Grammar) (I : Info) (K : Nat → List Child → Prop)
         by_cases hf : s.field = some f
         · simp only [hf, if_true]; exact a4
         · simp only [hf, if_false]; exact a5 f
+      · intro c hcm hpl
+        simp only [List.mem_map] at hcm
+        obtain ⟨c0, hc0, rfl⟩ := hcm
+        rw [isPlain_addField] at hpl
+        simp only [Bool.and_eq_true, decide_eq_true_eq] at hpl
+        simpa [addField] using c4 hpl.1 _ (a6 c0 hc0 hpl.2)
+      · intro hlt
+        rw [cntPlain_map_addField]
+        by_cases hf : s.field = none
+        · simp only [hf, if_true] at hlt ⊢; exact a7 hlt
+        · simp only [hf, if_false]; exact Nat.zero_le _
+      · rw [cntPlain_map_addField]
+        by_cases hf : s.field = none
+        · simp only [hf, if_true]; exact a8
+        · simp only [hf, if_false]; exact Nat.le_refl _
 
 theorem steps_sound (G : Grammar) (I : Info) (K : Nat → List Child → Prop)
     (hK : ∀ h ks, K h ks → Admits I h ks) (v : Nat) : ∀ (p : List Step) (ks : List Child),
@@ -129,21 +189,24 @@ theorem steps_sound (G : Grammar) (I : Info) (K : Nat → List Child → Prop)
     (sumBy (stepChildMax G I) p < 2 → ks.length ≤ sumBy (stepChildMax G I) p) ∧
     (∀ f, sumBy (stepFieldMax G I f) p < 2 → cnt f ks ≤ sumBy (stepFieldMax G I f) p) ∧
     (sumBy (stepChildMin G I) p ≤ ks.length) ∧
-    (∀ f, sumBy (stepFieldMin G I f) p ≤ cnt f ks) := by
+    (∀ f, sumBy (stepFieldMin G I f) p ≤ cnt f ks) ∧
+    (∀ c ∈ ks, isPlain c = true → c.ty ∈ I.plainTypes v) ∧
+    (sumBy (stepPlainMax G I) p < 2 → cntPlain ks ≤ sumBy (stepPlainMax G I) p) ∧
+    (sumBy (stepPlainMin G I) p ≤ cntPlain ks) := by
   intro p
   induction p with
   | nil =>
     intro ks h _
     simp only [StepsKids] at h
     subst h
-    simp [sumBy, cnt]
+    simp [sumBy, cnt, cntPlain]
   | cons s rest ih =>
     intro ks h hcl
     simp only [StepsKids] at h
     obtain ⟨k1, k2, rfl, h1, h2⟩ := h
-    obtain ⟨s1, s2, s3, s4, s5⟩ := step_sound G I K hK v s k1 h1 (hcl s List.mem_cons_self)
-    obtain ⟨r1, r2, r3, r4, r5⟩ := ih k2 h2 (fun t ht => hcl t (List.mem_cons_of_mem _ ht))
-    refine ⟨?_, ?_, ?_, ?_, ?_⟩
+    obtain ⟨s1, s2, s3, s4, s5, s6, s7, s8⟩ := step_sound G I K hK v s k1 h1 (hcl s List.mem_cons_self)
+    obtain ⟨r1, r2, r3, r4, r5, r6, r7, r8⟩ := ih k2 h2 (fun t ht => hcl t (List.mem_cons_of_mem _ ht))
+    refine ⟨?_, ?_, ?_, ?_, ?_, ?_, ?_, ?_⟩
     · intro c hc
       rcases List.mem_append.1 hc with hc | hc
       · exact s1 c hc
@@ -160,6 +223,15 @@ theorem steps_sound (G : Grammar) (I : Info) (K : Nat → List Child → Prop)
     · intro f
       have := s5 f; have := r5 f
       simp only [sumBy]; rw [cnt_append]; omega
+    · intro c hc hpl
+      rcases List.mem_append.1 hc with hc | hc
+      · exact s6 c hc hpl
+      · exact r6 c hc hpl
+    · intro hlt
+      simp only [sumBy] at hlt ⊢
+      have := s7 (by omega); have := r7 (by omega)
+      rw [cntPlain_append]; omega
+    · simp only [sumBy]; rw [cntPlain_append]; omega
 
 /-- every derivation (of any nesting depth) is admitted by closed information -/
 theorem kidsN_sound (G : Grammar) (I : Info) (hcl : Closed G I) :
@@ -171,12 +243,14 @@ theorem kidsN_sound (G : Grammar) (I : Info) (hcl : Closed G I) :
     intro v ks h
     simp only [KidsN] at h
     obtain ⟨p, hp, hs⟩ := h
-    obtain ⟨c1, c2, c3, c4, c5⟩ := hcl v p hp
-    obtain ⟨r1, r2, r3, r4, r5⟩ := steps_sound G I (KidsN G n) (fun h ks hk => ih h ks hk) v p ks hs c1
-    refine ⟨r1, ?_, ?_, ?_, ?_⟩
+    obtain ⟨c1, c2, c3, c4, c5, c6, c7⟩ := hcl v p hp
+    obtain ⟨r1, r2, r3, r4, r5, r6, r7, r8⟩ := steps_sound G I (KidsN G n) (fun h ks hk => ih h ks hk) v p ks hs c1
+    refine ⟨r1, ?_, ?_, ?_, ?_, r6, ?_, ?_⟩
     · intro hlt; have := c2 hlt; have := r2 (by omega); omega
     · intro f hlt; have := c3 f hlt; have := r3 f (by omega); omega
     · omega
     · intro f; have := c5 f; have := r5 f; omega
+    · intro hlt; have := c6 hlt; have := r7 (by omega); omega
+    · omega
 
 end TsVerif.C16.Derive
